@@ -122,7 +122,7 @@ def stop_stream(ctx, bdir, rng):
 
 
 def run(ctx):
-    bdir, A = runcheck.setup(ctx, ["C03", "Wrap:wrappers_pass|zero_dim"] + runcheck.drv("budget|maxeval|runs_forever"))
+    bdir, A = runcheck.setup(ctx, ["C03", "Wrap:wrappers_pass|zero_dim"] + runcheck.drv("budget|maxeval|runs_forever|^t1_|^T1$|nevals_eq_costs"))
     if bdir:
         rng = random.Random(ctx.seed * 61 + 3)
         stop_stream(ctx, bdir, rng)
